@@ -283,27 +283,25 @@ int snoopy_configfile_parseValue_output (
     char  *confVal;
     const char * outputName;
     const char * outputArg;
+    char  *argSeparator;
     int    outputArgFound = SNOOPY_FALSE;
-
-
-    // Do not assign null to it explicitly, as you get "Explicit null dereference" Coverity error.
-    // If you do not assign it, Coverity complains with "Uninitialized pointer read".
-    char  *saveptr1 = "";
 
     // First clone the config value, as it gets freed by ini parsing library
     confVal = strdup(confValString);
 
     // Check if configured value contains argument(s)
-    if (NULL == strchr(confVal, ':')) {
+    argSeparator = strchr(confVal, ':');
+    if (NULL == argSeparator) {
         outputName = confVal;
         CFG->output_arg          = "";
         CFG->output_arg_malloced = SNOOPY_FALSE;
         outputArg  = "";
     } else {
-        // Separate output name from its arguments
+        // Separate output name from its arguments at the first ':'
         // (arguments may contain further ':' characters, like "file:/var/log/snoopy-%{datetime:%Y-%m-%d}")
-        outputName = strtok_r(confVal, ":", &saveptr1);
-        outputArg  = outputName + strlen(outputName) + 1;
+        *argSeparator  = '\0';
+        outputName     = confVal;
+        outputArg      = argSeparator + 1;
         outputArgFound = SNOOPY_TRUE;
     }
 
